@@ -1,30 +1,83 @@
 (** C18 — the pool batches each account's transactions in gap-free nonce order, once.
     Statements only, each closed by [exact]; proofs in Proofs/Mempool*.v.
-    Model: Model/Mempool.v with all defect flags off ([cfg_fixed]); [reachable] = reached from the
-    empty pool by ANY sequence of ProcessTransactions / GenerateBlock / CommitTransactions (any hash
-    list) / RemoveAliveTimeoutTxs / SetBatchSeqNo / restart / generate+commit rounds. *)
+
+    Model: Model/Mempool.v with all defect flags off ([cfg_fixed]).  A history is ANY list of
+    ProcessTransactions (any lists: out of order, duplicates, equal-nonce conflicts, stale nonces,
+    leader or follower, local or remote) / GenerateBlock / CommitTransactions (any hash list:
+    unknown, repeated, partial, out of order) / RemoveAliveTimeoutTxs / SetBatchSeqNo / restart /
+    generate+commit rounds, for any batch size, pool size, timed or untimed.  [good_history] only
+    asks that the observation frame (accounts and transactions the trace is observed through)
+    covers what is submitted, and that the ledger oracle is not moved under a running pool.
+    [model_fails] = the failure codes the trace predicates of Model/MempoolSpec.v raise on the
+    model's trace; the same predicates are evaluated by the judge on implementation traces. *)
 From BX Require Import Base.Prelude Model.Mempool Model.MempoolSpec.
-From BX Require Import Proofs.MempoolLib Proofs.MempoolInv Proofs.MempoolInvOps Proofs.MempoolGen Proofs.MempoolReach Proofs.MempoolProofs.
+From BX Require Import Proofs.MempoolLib Proofs.MempoolInv Proofs.MempoolInvOps Proofs.MempoolGen Proofs.MempoolReach
+  Proofs.MempoolTrace3 Proofs.MempoolProofs.
 Local Open Scope N_scope.
 
-(** the state invariant (18 clauses over indices, caches and counters) holds in every reachable state *)
+(** the state invariant (19 clauses over indices, caches and counters) holds in every reachable state *)
 Theorem C18_invariant : forall p accts univ ops, forallb static_op ops = true ->
   Inv (run_state cfg_fixed p accts univ empty_state ops).
 Proof. exact invariant_all_histories. Qed.
 Print Assumptions C18_invariant.
 
-(** consecutive, across batches: what is batched and uncommitted is, per account, a gap-free run
-    from the commit nonce, below the pending nonce, of transactions still held *)
+(** every C18 predicate on every history, in one statement ... *)
+Theorem C18_all_histories : forall p accts univ ops, good_history accts univ ops ->
+  P p accts univ C18_codes (run cfg_fixed p accts univ empty_state ops).
+Proof. exact P_C18_all. Qed.
+Print Assumptions C18_all_histories.
+
+(** ... and clause by clause (i = step index at which the code would be raised) *)
+
+(** never a nonce whose predecessor is neither committed nor batched-and-uncommitted: within and
+    across batches an account's batched nonces run c, c+1, ... from its commit nonce *)
+Theorem C18_consecutive : forall p accts univ ops i, good_history accts univ ops ->
+  ~ In (E_gap, i) (model_fails p accts univ ops).
+Proof. exact (fun p accts univ ops i => code_never p accts univ ops E_gap i). Qed.
+Print Assumptions C18_consecutive.
+
+(** never the same (account, nonce) twice before it is committed *)
+Theorem C18_no_double : forall p accts univ ops i, good_history accts univ ops ->
+  ~ In (E_double, i) (model_fails p accts univ ops).
+Proof. exact (fun p accts univ ops i => code_never p accts univ ops E_double i). Qed.
+Print Assumptions C18_no_double.
+
+(** only transactions handed to the pool since the last restart, and the one currently held for the slot *)
+Theorem C18_provenance : forall p accts univ ops i, good_history accts univ ops ->
+  ~ In (E_provenance, i) (model_fails p accts univ ops) /\ ~ In (E_not_current, i) (model_fails p accts univ ops).
+Proof. exact (fun p accts univ ops i H => conj (code_never p accts univ ops E_provenance i H) (code_never p accts univ ops E_not_current i H)). Qed.
+Print Assumptions C18_provenance.
+
+(** never below the commit nonce; the commit nonce moves only by commits that explain it and equals
+    the ledger nonce right after a restart; never below what the (static) ledger reports *)
+Theorem C18_not_below_commit : forall p accts univ ops i, good_history accts univ ops ->
+  ~ In (E_below_commit, i) (model_fails p accts univ ops) /\ ~ In (E_commit_nonce, i) (model_fails p accts univ ops) /\
+  ~ In (E_below_ledger, i) (model_fails p accts univ ops).
+Proof.
+  exact (fun p accts univ ops i H => conj (code_never p accts univ ops E_below_commit i H)
+        (conj (code_never p accts univ ops E_commit_nonce i H) (code_never p accts univ ops E_below_ledger i H))).
+Qed.
+Print Assumptions C18_not_below_commit.
+
+(** a batch never exceeds the configured size (the suspected isTimed / counter = 0 escape is unreachable) *)
+Theorem C18_batch_size : forall p accts univ ops i, good_history accts univ ops ->
+  ~ In (E_batch_size, i) (model_fails p accts univ ops).
+Proof. exact (fun p accts univ ops i => code_never p accts univ ops E_batch_size i). Qed.
+Print Assumptions C18_batch_size.
+
+(** batch heights increase by one between SetBatchSeqNo / restart *)
+Theorem C18_seqno : forall p accts univ ops i, good_history accts univ ops ->
+  ~ In (E_seqno, i) (model_fails p accts univ ops).
+Proof. exact (fun p accts univ ops i => code_never p accts univ ops E_seqno i). Qed.
+Print Assumptions C18_seqno.
+
+(** the same content at the level of states, readable without the walker *)
 Theorem C18_consecutive_across : forall p accts univ s, reachable p accts univ s -> forall a n,
   In (a, n) (batched s) ->
   get_cn s a <= n < get_pn s a /\ item_at s (a, n) <> None /\ (get_cn s a < n -> In (a, n - 1) (batched s)).
 Proof. exact batched_run. Qed.
 Print Assumptions C18_consecutive_across.
 
-(** consecutive within a batch, no double batching, not below the commit nonce, provenance, batch
-    size, sequence number: one statement about every batch the pool can produce.  [seq_ok s B slots]
-    says of each slot in order: nonce >= commit nonce, not in B nor earlier in this batch, and equal
-    to the commit nonce or successor of a slot in B / earlier in this batch. *)
 Theorem C18_batch : forall p accts univ s s' h txs, reachable p accts univ s ->
   generate p s = (s', Some (h, txs)) ->
   h = seqno s + 1 /\ seqno s' = h /\ len txs <= batch_size p /\
@@ -35,8 +88,6 @@ Theorem C18_batch : forall p accts univ s s' h txs, reachable p accts univ s ->
 Proof. exact generate_safe. Qed.
 Print Assumptions C18_batch.
 
-(** the two exported entry points produce batches only through [generate] on a state that
-    satisfies the invariant *)
 Theorem C18_batch_via_GenerateBlock : forall p accts univ s s' h txs, reachable p accts univ s ->
   generate_block p s = (s', Some (h, txs)) -> generate p s = (s', Some (h, txs)).
 Proof. exact generate_block_safe. Qed.
@@ -48,13 +99,12 @@ Theorem C18_batch_via_ProcessTransactions : forall p accts univ s leader now txs
 Proof. exact process_batch_safe. Qed.
 Print Assumptions C18_batch_via_ProcessTransactions.
 
-(** after a restart every account starts at the ledger nonce and nothing is batched *)
 Theorem C18_not_below_commit_after_restart : forall h led a,
   get_cn (init_state h led) a = lookup0 a led /\ get_pn (init_state h led) a = lookup0 a led /\ batched (init_state h led) = [].
 Proof. exact restart_commit_nonce. Qed.
 Print Assumptions C18_not_below_commit_after_restart.
 
-(** the boolean predicates the judge evaluates on implementation traces are the Prop-level ones *)
+(** the boolean predicate the judge evaluates on implementation traces is the Prop-level one *)
 Theorem C18_P_b_spec : forall p accts univ tr, P_b p accts univ C18_codes tr = true <-> P p accts univ C18_codes tr.
 Proof. exact P_b_spec_C18. Qed.
 Print Assumptions C18_P_b_spec.
@@ -69,8 +119,11 @@ Theorem C18_stale_commit_cache_refuted : In (E_below_ledger, 4) (Witness.fails c
 Proof. exact stale_commit_cache_refuted. Qed.
 Print Assumptions C18_stale_commit_cache_refuted.
 
-(** non-vacuity: a reachable history with out-of-order arrival, conflict, duplicate, two batches,
-    partial commit and eviction on which every predicate of C18 and C19 holds *)
+(** non-vacuity: a good history with out-of-order arrival, conflict, duplicate, two batches,
+    a partial commit, an eviction and generate+commit rounds *)
+Example C18_example_hypotheses : good_history Witness.accts Witness.u_good Witness.h_good.
+Proof. exact good_history_is_good. Qed.
+
 Example C18_example :
   Witness.fails cfg_fixed Witness.h_good Witness.u_good = [] /\
   map (fun x => o_batches (snd x)) (Witness.tr cfg_fixed Witness.h_good Witness.u_good) =
